@@ -259,8 +259,19 @@ func (c *clusterClient) DownloadBlob(ctx context.Context, namespace string, d co
 
 	log.WithTraceContext(ctx).With("namespace", namespace, "digest", d.Hex()).Debug("Starting blob download from origin cluster")
 
+	// dst is a plain io.Writer and cannot be rewound. Once an attempt has handed part of
+	// the blob to dst and then failed (e.g. the origin dropped the connection mid-body),
+	// trying again or moving on to the next origin would append a second copy after the
+	// partial one, so such a failure ends the download.
+	cw := &countingWriter{w: dst}
 	err := Poll(c.resolver, c.defaultPollBackOff(), d, func(client Client) error {
-		return client.DownloadBlob(ctx, namespace, d, dst)
+		err := client.DownloadBlob(ctx, namespace, d, cw)
+		if err != nil && cw.n > 0 {
+			return backoff.Permanent(
+				fmt.Errorf("origin %s: download interrupted after %d bytes were written: %s",
+					client.Addr(), cw.n, err))
+		}
+		return err
 	})
 	if httputil.IsNotFound(err) {
 		span.SetStatus(codes.Error, "blob not found")
@@ -352,6 +363,18 @@ func (c *clusterClient) ReplicateToRemote(namespace string, d core.Digest, remot
 	})
 }
 
+// countingWriter counts the bytes successfully written to w.
+type countingWriter struct {
+	w io.Writer
+	n int64
+}
+
+func (cw *countingWriter) Write(p []byte) (int, error) {
+	n, err := cw.w.Write(p)
+	cw.n += int64(n)
+	return n, err
+}
+
 func shuffle(cs []Client) {
 	for i := range cs {
 		j := rand.Intn(i + 1)
@@ -361,6 +384,8 @@ func shuffle(cs []Client) {
 
 // Poll wraps requests for endpoints which require polling, due to a blob
 // being asynchronously fetched from remote storage in the origin cluster.
+// If makeRequest returns a *backoff.PermanentError, Poll stops and returns
+// the wrapped error without trying the remaining origins.
 func Poll(
 	r ClientResolver, b backoff.BackOff, d core.Digest, makeRequest func(Client) error,
 ) error {
@@ -378,6 +403,9 @@ ORIGINS:
 	POLL:
 		for {
 			if err := makeRequest(client); err != nil {
+				if perr, ok := err.(*backoff.PermanentError); ok {
+					return perr.Err // The request must not be repeated on any origin.
+				}
 				if serr, ok := err.(httputil.StatusError); ok {
 					if serr.Status == http.StatusAccepted {
 						d := b.NextBackOff()
